@@ -8,6 +8,7 @@ CONSTANTS
  MaxFaults = 3
  MaxSeeks = 0
  Conc = 8
+ StoreAnchor = TRUE
  RelNR = TRUE
  FixLeak = TRUE
  PrioAsc = TRUE
